@@ -231,8 +231,13 @@ def onReady (s : GState) : GState × String :=
   let exempt : Nat :=
     if s.kind != "cfg" || !hasPrecs || (cover == "true" && complete == "true") then 0
     else if cover == "true" && !badStates.isEmpty then 1 else 2
+  -- named precedences (`L<n>`): every `precedences` list must order the names by their levels, descending
+  let namedOK := g0.precedences.all fun l =>
+    let lv := l.map levelOfName
+    (l.all fun n => (if levelOfName n < 0 then "Lm" ++ toString (-(levelOfName n)).toNat else "L" ++ toString (levelOfName n).toNat) == n) &&
+    (lv.zip (lv.drop 1)).all fun ab => decide (ab.1 > ab.2)
   let opOK := match s.optable with
-    | some t => decide (g0.rules = opGrammarRules t)
+    | some t => decide (g0.rules = opGrammarRules t) && namedOK
     | none => true
   let termsOK := s.terms.all fun t =>
     let i := tbl.syms.getD t.sym default
